@@ -353,7 +353,9 @@ def typed_strategies():
                            # wildcards and tildes: outside a criterion they are ordinary characters
                            '*', '?', '~', 'a*', 'what?', '~*', '~?', '~~', '~~*', '?~~', 'a~*b?', 'is it ~? or *', '*~~?', '~a*']).map(lambda w: ['str', w])
     quotient = st.tuples(st.integers(1, 12), st.sampled_from([1, 2, 3, 4, 5, 8])).map(lambda t: ['par', ['bin', '/', ['num', str(t[0])], ['num', str(t[1])]]])
-    piece = st.one_of(word, word, odd, intexp, st.tuples(st.integers(0, 9), st.integers(1, 9)).map(lambda t: ['num', f'{t[0]}.{t[1]}']),
+    # a zero with a minus sign on the double (0/-3, 0*-2.5) is the number 0 and is written 0
+    minus_zero = st.sampled_from([['par', ['bin', '/', ['num', '0'], ['par', ['un', '-', ['num', '3']]]]], ['par', ['bin', '*', ['num', '0'], ['par', ['un', '-', ['num', '2.5']]]]]])
+    piece = st.one_of(word, word, odd, intexp, minus_zero, st.tuples(st.integers(0, 9), st.integers(1, 9)).map(lambda t: ['num', f'{t[0]}.{t[1]}']),
                       boollit, quotient, st.sampled_from(['A5', 'A6']).map(lambda r: ['ref', r]),
                       st.one_of(boollit, st.sampled_from(['A5', 'A6']).map(lambda r: ['ref', r])).map(lambda x: ['un', '-', ['un', '-', x]]),
                       st.one_of(boollit, intlit).map(lambda x: ['un', '+', x]))
